@@ -309,6 +309,18 @@ def IR.cleanup (ir : IR) (blocks : List Nat) : Except Err (IR × Nat) :=
           | none => .error (.assertion "no block left")
         else .error (.assertion "all(b.size for b in blocks)")
 
+/-- `_connect_empty_tail`: an empty code block without successor (split off the end of a block
+that ended in a jump or return) falls through to the code that physically follows -/
+def IR.connectEmptyTail (ir : IR) (tail : Nat) : IR :=
+  match ir.block? tail with
+  | none => ir
+  | some t =>
+    if t.isCode && t.size == 0 && (ir.outEdges tail).isEmpty then
+      match (ir.adjacent t).2 with
+      | some n => if ir.isCodeBlockId (some n) then ir.addFall tail n else ir
+      | none => ir
+    else ir
+
 /-- `delete(cache, block, offset, length, retarget_to_proxy)`: `none` result = the
 whole block went away -/
 def IR.delete (ir : IR) (bId offset length : Nat) (toProxy : Bool) : Except Err (IR × Option Nat) :=
@@ -326,7 +338,8 @@ def IR.delete (ir : IR) (bId offset length : Nat) (toProxy : Bool) : Except Err 
           | .ok (ir1, endB, _) =>
             match ir1.splitBlock endB length with
             | .error e => .error e
-            | .ok (ir2, end2, _) =>
+            | .ok (ir2', end2, _) =>
+              let ir2 := ir2'.connectEmptyTail end2
               match ir2.removeBlock endB false with
               | .error e => .error e
               | .ok (ir3, _) =>
@@ -385,10 +398,10 @@ def IR.insertSplit (ir : IR) (bId offset repl : Nat) : Except Err (IR × Nat × 
       match ir1.splitBlock end0 repl with
       | .error e => .error e
       | .ok (i2, end2, _) =>
-        match i2.removeBlock end0 false with
+        match (i2.connectEmptyTail end2).removeBlock end0 false with
         | .error e => .error e
         | .ok (i3, _) => .ok (i3, end2, added)
-    else .ok (ir1, end0, added)
+    else .ok (ir1.connectEmptyTail end0, end0, added)
 
 /-- stitch the patch into the CFG: block → patch and patch → remainder -/
 def IR.insertStitch (ir : IR) (tb : List Block) (bId endB : Nat) (added : Bool) : IR :=
@@ -483,18 +496,20 @@ def IR.insert (ir : IR) (bId offset repl : Nat) (p : Patch) : Except Err (IR × 
           if lastB.isCode && p.cfg.any (fun e => e.src == .block lastB.id) then
             .error (.assertion "the last block cannot have outgoing cfg edges")
           else
-            -- return edges
-            let r0 := ir.addReturnEdgesForPatchCalls p.cfg
+            -- return edges inside the patch take the targets of the function's other returns
             let pc : List Edge × List Nat :=
-              if blk.isCode then r0.1.matchPatchReturnEdges bId r0.2 p.proxies else (r0.2, p.proxies)
-            match r0.1.insertSplit bId offset repl with
+              if blk.isCode then ir.matchPatchReturnEdges bId p.cfg p.proxies else (p.cfg, p.proxies)
+            match ir.insertSplit bId offset repl with
             | .error e => .error e
-            | .ok (ir2, endB, added) =>
+            | .ok (ir2', endB, added) =>
+              -- calls inside the patch: the callee's returning blocks are looked up after the splits
+              let r0 := ir2'.addReturnEdgesForPatchCalls pc.1
+              let ir2 := r0.1
               let base := blk.off + offset
               let ir5 := (ir2.insertStitch tb bId endB added).editInterval biId base repl p.text.data [bId]
               let ir8 := (((ir5.placePatchBlocks tb biId base).addPatchExprs biId base p.text.symExprs).orderInsertAfter
                 sect bId (tb.map (·.id)))
-              let ir9 := ir8.addPatchNodes p pc.1 pc.2
+              let ir9 := ir8.addPatchNodes p r0.2 pc.2
               if p.hasFuncSym then .error .unsupported
               else
                 match ((ir9.addPatchAux p biId base).addPatchFunctions blk tb).addOthers p with
